@@ -7,10 +7,11 @@ import Martian.Props.C11.Header
 
 Theorems about the executable model `Martian.Grpc` (`Model/Grpc.lean`) of `h2/grpc/grpc.go`.
 They hold for every compression library (`cd : Codec`); the wire round trip assumes
-`cd.RoundTrip` explicitly. Size hypotheses are exact: the code compares `uint32(a.buffer.Len())`,
-so the cut-set theorems need fewer than 2^32 + 5 bytes pending (`Props/C11/Bounds.lean`: sharp).
-Sub-files: `C11/Bounds.lean` (32-bit arithmetic), `C11/EmptyFrames.lean` (zero-length DATA frames),
-`C11/Header.lean` (`adapter.Header` over the ordered field list, gRPC detection, finding F11d). Vocabulary (`GMsg`, `stream`, `expCalls`, `runFrames`, `emit`,
+`cd.RoundTrip` explicitly. No bound on buffer or stream sizes is needed (since fix ba75971 the
+adapter compares lengths without truncation); the only 32-bit limit left is the format's own: a
+payload must fit the `uint32` prefix (`GMsg.ok`, `Props/C11/Bounds.lean`).
+Sub-files: `C11/Bounds.lean` (32-bit prefix arithmetic), `C11/EmptyFrames.lean` (zero-length DATA
+frames), `C11/Header.lean` (`adapter.Header` over the ordered field list, gRPC detection). Vocabulary (`GMsg`, `stream`, `expCalls`, `runFrames`, `emit`,
 `Stream.run`) is defined in the model file.
 
 An END_STREAM on an *empty* DATA frame while no message is pending is turned by the code into
@@ -38,64 +39,57 @@ theorem cut_ne_nil (ks : List Nat) (s : Bytes) : cut ks s ≠ [] := by
 
 /-- One DATA frame `x ++ y` has the same effect (calls, order, end-of-stream flags, final state,
 error) as the frame `x` followed by the frame `y` carrying the END_STREAM flag of the whole —
-for every adapter state, every codec, every split point, as long as fewer than 2^32 + 5 bytes are
-pending (`Adapter.pending`: the code compares `uint32(a.buffer.Len())`; the bound is sharp, see
-`streaming_eq_batch_bound_sharp` in `Props/C11/Bounds.lean`). -/
-theorem streaming_eq_batch (cd : Codec) (a : Adapter) (x y : Bytes) (es : Bool) (h : y ≠ [] ∨ es = false)
-    (hb : a.pending + x.length + y.length < 4294967301) :
+for every adapter state, every codec, every split point. -/
+theorem streaming_eq_batch (cd : Codec) (a : Adapter) (x y : Bytes) (es : Bool) (h : y ≠ [] ∨ es = false) :
     data cd a (x ++ y) es = (data cd a x false).andThen (fun a' => data cd a' y es) :=
-  data_append cd a x y es h hb
+  data_append cd a x y es h
 
 /-- Any DATA frame sequence (any number of frames, empty frames allowed anywhere but at an
 END_STREAM) is equivalent to the single frame carrying the concatenation. -/
 theorem frames_eq_batch (cd : Codec) (a : Adapter) (fs : List Bytes) (es : Bool) (hne : fs ≠ [])
-    (hl : es = false ∨ fs.getLast? ≠ some [])
-    (hb : a.pending + fs.flatten.length < 4294967301) :
+    (hl : es = false ∨ fs.getLast? ≠ some []) :
     runFrames cd a fs es = data cd a fs.flatten es :=
-  runFrames_eq_data cd a fs es hne hl hb
+  runFrames_eq_data cd a fs es hne hl
 
 /-- Two ways of cutting the same bytes are indistinguishable. -/
 theorem cut_sets_equivalent (cd : Codec) (a : Adapter) (fs gs : List Bytes) (es : Bool)
     (hf : fs ≠ []) (hg : gs ≠ []) (hfl : es = false ∨ fs.getLast? ≠ some [])
-    (hgl : es = false ∨ gs.getLast? ≠ some []) (h : fs.flatten = gs.flatten)
-    (hb : a.pending + fs.flatten.length < 4294967301) :
+    (hgl : es = false ∨ gs.getLast? ≠ some []) (h : fs.flatten = gs.flatten) :
     runFrames cd a fs es = runFrames cd a gs es := by
-  rw [frames_eq_batch cd a fs es hf hfl hb, frames_eq_batch cd a gs es hg hgl (h ▸ hb), h]
+  rw [frames_eq_batch cd a fs es hf hfl, frames_eq_batch cd a gs es hg hgl, h]
 
 /-! ## 2. the processor is shown exactly the messages -/
 
 /-- The whole stream in one DATA frame: the processor is shown exactly the decompressed
 messages, in order, end-of-stream on the last one only; the adapter is between messages after. -/
 theorem batch_shows_messages (cd : Codec) (e : Enc) (ms : List GMsg) (es : Bool) (hne : ms ≠ [])
-    (hok : ∀ m ∈ ms, m.ok cd e) (hlen : (stream ms).length < 4294967301) :
+    (hok : ∀ m ∈ ms, m.ok cd e) :
     ∃ a', data cd (fresh e) (stream ms) es = ⟨expCalls ms es, some a'⟩ ∧ a'.atRest ∧ a'.enc = e :=
-  data_stream cd es ms hne (fresh e) ⟨rfl, rfl⟩ hok hlen
+  data_stream cd es ms hne (fresh e) ⟨rfl, rfl⟩ hok
 
-/-- Full statement: for every message sequence (of fewer than 2^32 + 5 bytes on the wire) and
-every way of cutting its byte stream into DATA frames with END_STREAM on the last frame, the
-processor is shown exactly the messages. -/
+/-- Full statement: for every message sequence and every way of cutting its byte stream into
+DATA frames with END_STREAM on the last frame, the processor is shown exactly the messages. -/
 def FragmentationInvariant (cd : Codec) : Prop :=
   ∀ (e : Enc) (ms : List GMsg) (fs : List Bytes), (∀ m ∈ ms, m.ok cd e) → fs ≠ [] → fs.flatten = stream ms →
-    (stream ms).length < 4294967301 →
     (runFrames cd (fresh e) fs true).calls = expCalls ms true
 
 /-- `FragmentationInvariant` for every cut whose END_STREAM frame is not empty (END_STREAM on
 the last DATA frame of the data). Excluded: exactly the class of F11b. -/
 theorem fragmentation_invariant_partial (cd : Codec) (e : Enc) (ms : List GMsg) (fs : List Bytes)
     (hok : ∀ m ∈ ms, m.ok cd e) (hne : fs ≠ []) (hfl : fs.flatten = stream ms)
-    (hlast : fs.getLast? ≠ some []) (hlen : (stream ms).length < 4294967301) :
+    (hlast : fs.getLast? ≠ some []) :
     ∃ a', runFrames cd (fresh e) fs true = ⟨expCalls ms true, some a'⟩ ∧ a'.atRest ∧ a'.enc = e := by
   have hms : ms ≠ [] := by
     intro h
     have := flatten_ne_nil_of_getLast fs hne hlast
     rw [hfl, h] at this
     exact this rfl
-  rw [frames_eq_batch cd _ fs true hne (Or.inr hlast) (by simpa [fresh, Adapter.pending, hfl] using hlen), hfl]
-  exact batch_shows_messages cd e ms true hms hok hlen
+  rw [frames_eq_batch cd _ fs true hne (Or.inr hlast), hfl]
+  exact batch_shows_messages cd e ms true hms hok
 
 /-- Frames that do not end the stream, cut in any way whatsoever (no side condition). -/
 theorem fragmentation_invariant_open_stream (cd : Codec) (e : Enc) (ms : List GMsg) (fs : List Bytes)
-    (hok : ∀ m ∈ ms, m.ok cd e) (hfl : fs.flatten = stream ms) (hlen : (stream ms).length < 4294967301) :
+    (hok : ∀ m ∈ ms, m.ok cd e) (hfl : fs.flatten = stream ms) :
     ∃ a', runFrames cd (fresh e) fs false = ⟨expCalls ms false, some a'⟩ ∧ a'.atRest ∧ a'.enc = e := by
   cases fs with
   | nil =>
@@ -106,24 +100,22 @@ theorem fragmentation_invariant_open_stream (cd : Codec) (e : Enc) (ms : List GM
     subst this
     exact ⟨fresh e, by simp [runFrames, expCalls], ⟨rfl, rfl⟩, rfl⟩
   | cons f fs =>
-    rw [frames_eq_batch cd _ (f :: fs) false (by simp) (Or.inl rfl)
-      (by simpa [fresh, Adapter.pending, hfl] using hlen), hfl]
-    exact data_stream_false cd ms (fresh e) ⟨rfl, rfl⟩ hok hlen
+    rw [frames_eq_batch cd _ (f :: fs) false (by simp) (Or.inl rfl), hfl]
+    exact data_stream_false cd ms (fresh e) ⟨rfl, rfl⟩ hok
 
 /-- The same in terms of cut sets: for all piece lengths `ks`. -/
 theorem fragmentation_invariant_cuts_partial (cd : Codec) (e : Enc) (ms : List GMsg) (ks : List Nat)
-    (hok : ∀ m ∈ ms, m.ok cd e) (hlast : (cut ks (stream ms)).getLast? ≠ some [])
-    (hlen : (stream ms).length < 4294967301) :
+    (hok : ∀ m ∈ ms, m.ok cd e) (hlast : (cut ks (stream ms)).getLast? ≠ some []) :
     (runFrames cd (fresh e) (cut ks (stream ms)) true).calls = expCalls ms true := by
   obtain ⟨a', h, _⟩ := fragmentation_invariant_partial cd e ms (cut ks (stream ms)) hok (cut_ne_nil _ _)
-    (cut_flatten _ _) hlast hlen
+    (cut_flatten _ _) hlast
   rw [h]
 
 /-- F11b: the code as it is violates the full statement, whatever the compression library:
 the stream without messages ended by an empty DATA frame shows one (empty) message. -/
 theorem fragmentation_invariant_counterexample (cd : Codec) : ¬ FragmentationInvariant cd := by
   intro h
-  have := h .identity [] [[]] (by simp) (by simp) (by simp [stream]) (by simp [stream])
+  have := h .identity [] [[]] (by simp) (by simp) (by simp [stream])
   rw [show runFrames cd (fresh .identity) [[]] true = data cd (fresh .identity) [] true from rfl,
     data_nil_true cd (fresh .identity) ⟨rfl, rfl⟩] at this
   simp [expCalls] at this
@@ -134,17 +126,16 @@ theorem fragmentation_invariant_counterexample (cd : Codec) : ¬ FragmentationIn
 shows the processor nothing but `ms`. -/
 def EmptyEosAddsNoMessage (cd : Codec) : Prop :=
   ∀ (e : Enc) (ms : List GMsg) (fs : List Bytes), (∀ m ∈ ms, m.ok cd e) → fs.flatten = stream ms →
-    (stream ms).length < 4294967301 →
     (runFrames cd (fresh e) (fs ++ [[]]) true).calls.map (·.data) = ms.map (·.plain)
 
 /-- What the code does instead (for every input of this class): all messages are shown
 correctly, none with end-of-stream, followed by exactly one spurious empty message that carries
 the end-of-stream (and is re-emitted with the compressed flag of the previous message). -/
 theorem empty_eos_frame_partial (cd : Codec) (e : Enc) (ms : List GMsg) (fs : List Bytes)
-    (hok : ∀ m ∈ ms, m.ok cd e) (hfl : fs.flatten = stream ms) (hlen : (stream ms).length < 4294967301) :
+    (hok : ∀ m ∈ ms, m.ok cd e) (hfl : fs.flatten = stream ms) :
     ∃ a', runFrames cd (fresh e) (fs ++ [[]]) true
         = ⟨expCalls ms false ++ [⟨a'.compressed, [], true⟩], some a'⟩ ∧ a'.atRest := by
-  obtain ⟨a', h1, h2, _⟩ := fragmentation_invariant_open_stream cd e ms fs hok hfl hlen
+  obtain ⟨a', h1, h2, _⟩ := fragmentation_invariant_open_stream cd e ms fs hok hfl
   refine ⟨a', ?_, h2⟩
   cases fs with
   | nil =>
@@ -159,7 +150,7 @@ theorem empty_eos_frame_partial (cd : Codec) (e : Enc) (ms : List GMsg) (fs : Li
 
 theorem empty_eos_adds_no_message_counterexample (cd : Codec) : ¬ EmptyEosAddsNoMessage cd := by
   intro h
-  have := h .identity [] [] (by simp) (by simp [stream]) (by simp [stream])
+  have := h .identity [] [] (by simp) (by simp [stream])
   rw [show runFrames cd (fresh .identity) ([] ++ [[]]) true = data cd (fresh .identity) [] true from rfl,
     data_nil_true cd (fresh .identity) ⟨rfl, rfl⟩] at this
   simp at this
@@ -172,7 +163,7 @@ theorem empty_eos_adds_no_message_counterexample_after_message (cd : Codec) :
   have hok : ∀ m ∈ [(⟨false, [0x41], [0x41]⟩ : GMsg)], m.ok cd .identity := by
     intro m hm; simp at hm; subst hm; simp [GMsg.ok, decode]
   obtain ⟨a', h, _⟩ := empty_eos_frame_partial cd .identity [⟨false, [0x41], [0x41]⟩] [[0, 0, 0, 0, 1, 0x41]] hok
-    (by simp [stream, GMsg.frame, putBe32]) (by simp [stream, GMsg.frame, putBe32])
+    (by simp [stream, GMsg.frame, putBe32])
   have h' := congrArg Res.calls h
   have hn := congrArg Res.next h
   simp only [List.cons_append, List.nil_append] at h' hn
@@ -180,7 +171,7 @@ theorem empty_eos_adds_no_message_counterexample_after_message (cd : Codec) :
   -- the flag re-used for the spurious message is the one of the message before it
   have hc : a'.compressed = false := by
     have h2 := fragmentation_invariant_open_stream cd .identity [⟨false, [0x41], [0x41]⟩] [[0, 0, 0, 0, 1, 0x41]] hok
-      (by simp [stream, GMsg.frame, putBe32]) (by simp [stream, GMsg.frame, putBe32])
+      (by simp [stream, GMsg.frame, putBe32])
     simp only [runFrames] at hn h2
     obtain ⟨b', hb, hb2, _⟩ := h2
     simp only [Res.andThen, hb] at hn
@@ -189,7 +180,7 @@ theorem empty_eos_adds_no_message_counterexample_after_message (cd : Codec) :
     subst hab
     unfold data at hb
     rw [loop_frame cd false _ ⟨false, [0x41], [0x41]⟩ [] rfl (by simp [Adapter.app, fresh, GMsg.frame, putBe32])
-      (by simp [GMsg.ok, decode]) (by simp [Adapter.app, fresh])] at hb
+      (by simp [GMsg.ok, decode])] at hb
     have := congrArg Res.next hb
     simp [Adapter.afterDelivery] at this
     rw [← this]
@@ -216,12 +207,11 @@ with the same grammar and the same library (here: a fresh adapter of the next ho
 compressed flags. Needs the library round trip and that recompressed payloads fit a uint32. -/
 theorem passthrough_wire_roundtrip (cd : Codec) (hrt : cd.RoundTrip) (e : Enc) (ms : List GMsg) (fs : List Bytes)
     (hok : ∀ m ∈ ms, m.ok cd e) (hne : fs ≠ []) (hfl : fs.flatten = stream ms)
-    (hlast : fs.getLast? ≠ some []) (hin : (stream ms).length < 4294967301)
-    (hlen : ∀ m ∈ ms, (encode cd e m.compressed m.plain).length < 4294967296)
-    (hout : (stream (ms.map (GMsg.reenc cd e))).length < 4294967301) (es' : Bool) :
+    (hlast : fs.getLast? ≠ some [])
+    (hlen : ∀ m ∈ ms, (encode cd e m.compressed m.plain).length < 4294967296) (es' : Bool) :
     ∃ b', data cd (fresh e) (((sinkFrames cd e (runFrames cd (fresh e) fs true)).map Prod.fst).flatten) es'
         = ⟨expCalls ms es', some b'⟩ := by
-  obtain ⟨a', h, _, _⟩ := fragmentation_invariant_partial cd e ms fs hok hne hfl hlast hin
+  obtain ⟨a', h, _, _⟩ := fragmentation_invariant_partial cd e ms fs hok hne hfl hlast
   have hms : ms ≠ [] := by
     intro h0
     have := flatten_ne_nil_of_getLast fs hne hlast
@@ -234,7 +224,7 @@ theorem passthrough_wire_roundtrip (cd : Codec) (hrt : cd.RoundTrip) (e : Enc) (
     (by
       intro m hm
       obtain ⟨m0, hm0, rfl⟩ := List.mem_map.mp hm
-      exact reenc_ok cd hrt e m0 (hlen m0 hm0)) hout
+      exact reenc_ok cd hrt e m0 (hlen m0 hm0))
   exact ⟨b', by rw [hb, expCalls_reenc]⟩
 
 /-! ## 5. end-of-stream exactly once, after the last message -/
@@ -242,11 +232,11 @@ theorem passthrough_wire_roundtrip (cd : Codec) (hrt : cd.RoundTrip) (e : Enc) (
 /-- The sink receives one DATA frame per message; END_STREAM is on the last one and on no other. -/
 theorem eos_exactly_once_after_last (cd : Codec) (e : Enc) (ms : List GMsg) (fs : List Bytes)
     (hok : ∀ m ∈ ms, m.ok cd e) (hne : fs ≠ []) (hfl : fs.flatten = stream ms)
-    (hlast : fs.getLast? ≠ some []) (hlen : (stream ms).length < 4294967301) :
+    (hlast : fs.getLast? ≠ some []) :
     (sinkFrames cd e (runFrames cd (fresh e) fs true)).map Prod.snd
       = List.replicate (ms.length - 1) false ++ [true]
     ∧ (sinkFrames cd e (runFrames cd (fresh e) fs true)).length = ms.length := by
-  obtain ⟨a', h, _, _⟩ := fragmentation_invariant_partial cd e ms fs hok hne hfl hlast hlen
+  obtain ⟨a', h, _, _⟩ := fragmentation_invariant_partial cd e ms fs hok hne hfl hlast
   have hms : ms ≠ [] := by
     intro h0
     have := flatten_ne_nil_of_getLast fs hne hlast
@@ -258,10 +248,10 @@ theorem eos_exactly_once_after_last (cd : Codec) (e : Enc) (ms : List GMsg) (fs 
 /-- With the END_STREAM on a separate empty frame (F11b class) the end-of-stream still reaches
 the sink exactly once and last — on the spurious message. -/
 theorem eos_exactly_once_empty_frame_partial (cd : Codec) (e : Enc) (ms : List GMsg) (fs : List Bytes)
-    (hok : ∀ m ∈ ms, m.ok cd e) (hfl : fs.flatten = stream ms) (hlen : (stream ms).length < 4294967301) :
+    (hok : ∀ m ∈ ms, m.ok cd e) (hfl : fs.flatten = stream ms) :
     (sinkFrames cd e (runFrames cd (fresh e) (fs ++ [[]]) true)).map Prod.snd
       = List.replicate ms.length false ++ [true] := by
-  obtain ⟨a', h, _⟩ := empty_eos_frame_partial cd e ms fs hok hfl hlen
+  obtain ⟨a', h, _⟩ := empty_eos_frame_partial cd e ms fs hok hfl
   rw [h]
   cases ms with
   | nil => simp [sinkFrames, expCalls, emit]
@@ -273,7 +263,7 @@ theorem eos_exactly_once_empty_frame_partial (cd : Codec) (e : Enc) (ms : List G
 
 /-! ## 6. streams that are not gRPC pass through untouched -/
 
-/-- On a stream on which no header block with `content-type: application/grpc` has been seen,
+/-- On a stream on which no header block with a gRPC `content-type` (`Grpc.isGrpcCT`) has been seen,
 every HEADERS and DATA frame of either direction reaches its sink as it is, in order. -/
 theorem non_grpc_untouched (cd : Codec) (fs : List Frame) (hf : ∀ f ∈ fs, f.announcesGrpc = false) :
     Stream.run cd {} fs = fs.map Frame.forwarded :=
@@ -294,26 +284,34 @@ theorem directions_independent (cd : Codec) (s s' : Stream) (b : Bytes) (es : Bo
 
 /-! ## 7. Facts regenerated from the source on every check (finite tables: `decide`) -/
 
-/-- adapter.Header tests `content-type` = `application/grpc` (for equality: `==` or a `case`
-of a `switch` on the name; in `adapter.Header` itself or in a helper it calls) and reads
-`grpc-encoding`; nothing else is compared with a header field -/
+/-- adapter.Header compares a field NAME for equality (`==` or a `case` of a `switch` on the
+name; in `adapter.Header` itself or in a helper it calls) with `content-type` and `grpc-encoding`,
+and no field value with any string (the content-type value goes to the helper below, the
+`grpc-encoding` value through the table) -/
 theorem facts_grpc_header_tests : Generated.Grpc.headerTests =
-    [("Name", "content-type"), ("Value", "application/grpc"), ("Name", "grpc-encoding")] := by decide
+    [("Name", "content-type"), ("Name", "grpc-encoding")] := by decide
+
+/-- the content-type helper (`isGRPCContentType`): `strings.HasPrefix` with the one literal
+`application/grpc`, then exact length or a following `'+'` / `';'` — as `Grpc.isGrpcCT` -/
+theorem facts_grpc_content_type_test :
+    Generated.Grpc.ctLiterals = ["application/grpc"] ∧ Generated.Grpc.ctCalls = ["strings.HasPrefix"]
+    ∧ Generated.Grpc.ctSeparators = ["+", ";"] ∧ Generated.Grpc.ctExactLen = true := by decide
+
+/-- The 32-bit arithmetic the model transcribes: `adapter.length` is a `uint32`; the one ordering
+comparison with it widens both sides to `uint64` (no truncation: `Grpc.loop` compares naturals);
+the prefix is read and written big-endian, the written value being `uint32(len(data))`
+(`Grpc.putBe32`, `Grpc.u32`). -/
+theorem facts_grpc_length_arith :
+    Generated.Grpc.lengthFieldType = "uint32"
+    ∧ Generated.Grpc.lengthCompares = ["uint64(a.buffer.Len()) < uint64(a.length)"]
+    ∧ Generated.Grpc.prefixRead = ["binary.BigEndian", "&a.length"]
+    ∧ Generated.Grpc.prefixWrite = ["binary.BigEndian", "uint32(len(data))"] := by decide
 
 theorem facts_grpc_encoding_names : Generated.Grpc.encodingNames =
     [("identity", "Identity"), ("gzip", "Gzip"), ("deflate", "Deflate"), ("snappy", "Snappy")] := by decide
 
 /-- the message prefix is 5 bytes (flag + big-endian uint32), as in the model -/
 theorem facts_grpc_prefix_len : Generated.Grpc.prefixLen = 5 := by decide
-
-/-- The 32-bit arithmetic the model transcribes (`Grpc.u32`, `be32`, `putBe32`): `adapter.length`
-is a `uint32`; the one ordering comparison with it converts the buffer length to `uint32` first;
-the prefix is read and written big-endian, the written value being `uint32(len(data))`. -/
-theorem facts_grpc_length_arith :
-    Generated.Grpc.lengthFieldType = "uint32"
-    ∧ Generated.Grpc.lengthCompares = ["uint32(a.buffer.Len()) < a.length"]
-    ∧ Generated.Grpc.prefixRead = ["binary.BigEndian", "&a.length"]
-    ∧ Generated.Grpc.prefixWrite = ["binary.BigEndian", "uint32(len(data))"] := by decide
 
 /-- For every encoding the emitter writes the format the adapter reads (the structural side of
 `Codec.RoundTrip`; F11c was snappy-framed in, snappy-block out). -/
@@ -334,17 +332,17 @@ example : storeCodec.RoundTrip := fun _ _ => rfl
 /-- a two-message stream (one flagged compressed, one empty) satisfying `GMsg.ok`, cut into
 three frames inside the prefix and inside the payload, last frame non-empty -/
 example : ∃ (ms : List GMsg) (fs : List Bytes), (∀ m ∈ ms, m.ok storeCodec .gzip) ∧ fs ≠ [] ∧
-    fs.flatten = stream ms ∧ fs.getLast? ≠ some [] ∧ ms.length = 2 ∧ (stream ms).length < 4294967301 :=
+    fs.flatten = stream ms ∧ fs.getLast? ≠ some [] ∧ ms.length = 2 :=
   ⟨[⟨true, [7, 8], [7, 8]⟩, ⟨false, [], []⟩], [[1, 0, 0], [0, 2, 7], [8, 0, 0, 0, 0, 0]],
     by intro m hm; simp at hm; rcases hm with h | h <;> subst h <;> simp [GMsg.ok, decode, storeCodec],
-    by simp, by simp [stream, GMsg.frame, putBe32], by simp, rfl, by simp [stream, GMsg.frame, putBe32]⟩
+    by simp, by simp [stream, GMsg.frame, putBe32], by simp, rfl⟩
 
 /-- instance: the zero-length message whose prefix ends the END_STREAM frame is delivered with
 the end-of-stream (the input of F11a, fixed in the code and hence in the model) -/
 example (cd : Codec) : (runFrames cd (fresh .identity) [[0, 0, 0], [0, 0]] true).calls = [⟨false, [], true⟩] := by
   obtain ⟨a', h, _⟩ := fragmentation_invariant_partial cd .identity [⟨false, [], []⟩] [[0, 0, 0], [0, 0]]
     (by intro m hm; simp at hm; subst hm; simp [GMsg.ok, decode]) (by simp)
-    (by simp [stream, GMsg.frame, putBe32]) (by simp) (by simp [stream, GMsg.frame, putBe32])
+    (by simp [stream, GMsg.frame, putBe32]) (by simp)
   rw [h]; simp [expCalls]
 
 end Martian.Props.C11
